@@ -9,6 +9,12 @@ from pmverif.core import Program
 from pmverif.norm import Resolver, assigned_names, shape_of
 prog = Program()
 out = {}
+def _sig(node):
+    a = node.args
+    pos = [*a.posonlyargs, *a.args]
+    out = {p.arg: " ".join(ast.unparse(d).split()) for p, d in zip(pos[len(pos) - len(a.defaults):], a.defaults)}
+    out.update({p.arg: " ".join(ast.unparse(d).split()) for p, d in zip(a.kwonlyargs, a.kw_defaults) if d is not None})
+    return out
 def _uses(key):
     from pmverif.gates import def_uses, view
     try:
@@ -31,6 +37,7 @@ for fn in prog.all_funcs():
         "shape": shape_of(fn.node),
         "locals": sorted((assigned_names([fn.node]) | set(fn.params())) - {fn.name}),
         "defs": {k: " ".join(ast.unparse(e).split()) for k, e in sorted(Resolver(fn.node).defs.items())},
+        "sig": _sig(fn.node),
         "ctx": _ctx(fn.key),
         "uses": _uses(fn.key),
         "returns": sorted(" ".join(ast.unparse(r.value).split()) if r.value is not None else "None" for r in walk_own(fn.node) if isinstance(r, ast.Return)),
